@@ -381,8 +381,10 @@ static const mc_sys SYS = { CLS, 0, op_name, fresh, enabled, apply, probe, canon
  * {complete, 1 byte, half, EINTR}; deviations bounded (E3).  fgets() paths use fmemopen and pipes. */
 static int g_hook_fd = -1;
 ssize_t __real_read(int fd, void *buf, size_t n);
+static int g_eio_at = -1, g_eio_seen;
 ssize_t __wrap_read(int fd, void *buf, size_t n)
 {
+    if (fd == g_hook_fd && g_eio_at >= 0 && g_eio_seen++ >= g_eio_at) { errno = EIO; return -1; }          /* from this call on the descriptor fails hard */
     if (fd == g_hook_fd && mc_e3_active() && n > 0) {
         int c = mc_choose(4);
         if (c == 1) n = 1;
@@ -494,6 +496,88 @@ static void sc_case(uint64_t idx, void *ctx)
 }
 
 
+/* ------------------------------------------------------------------ descriptor constructors with a history, and with hard read errors */
+/* (a) a big stream was read earlier in the same process (anything the reader keeps between calls has seen >= 32 kB), then an object is
+ *     built from a second stream whose data is already queued; (b) init_from_fd on an object the caller keeps, with read() failing hard
+ *     (EIO on the j-th call, a directory, a write-only descriptor): whatever it returns, the object must be consistent and usable. */
+static int queue_stream(int kind, const char *data, int len, int fds[2])
+{
+    if (kind == 0) { if (pipe(fds)) return 0; fcntl(fds[1], F_SETPIPE_SZ, 1 << 20); }
+    else { if (socketpair(AF_UNIX, SOCK_STREAM, 0, fds)) return 0; int sz = 1 << 20; setsockopt(fds[1], SOL_SOCKET, SO_SNDBUF, &sz, sizeof sz); setsockopt(fds[0], SOL_SOCKET, SO_RCVBUF, &sz, sizeof sz); }
+    int off = 0; fcntl(fds[1], F_SETFL, O_NONBLOCK);
+    while (off < len) { ssize_t w = write(fds[1], data + off, (size_t) (len - off)); if (w <= 0) break; off += (int) w; }
+    close(fds[1]); fds[1] = -1;
+    if (off != len) { close(fds[0]); return 0; }
+    return 1;
+}
+static void check_text(T o, const char *pay, int explen, const char *site, const char *shape, const char *what)
+{
+    if (!o) { FAIL(site, "model:return", shape, "%s: constructor returned NULL", what); return; }
+    if (!o->s) { if (explen) FAIL(site, "model:text", shape, "%s: empty object for %d expected characters", what, explen); return; }
+    if (o->len != explen) FAIL(site, "model:len", shape, "%s: len=%ld expected %d", what, (long) o->len, explen);
+    else if (o->size <= o->len || (mc_block_size(o->s) && (IDX) mc_block_size(o->s) < o->size) || o->s[o->len]) FAIL(site, "invariant:I2", shape, "%s: len=%ld size=%ld block=%zu", what, (long) o->len, (long) o->size, mc_block_size(o->s));
+    else if (memcmp(o->s, pay, (size_t) explen)) { int d = 0; while (d < explen && o->s[d] == pay[d]) d++; FAIL(site, "model:text", shape, "%s: text differs from the input at offset %d of %d", what, d, explen); }
+}
+static const int H_FIRST[] = { 33000, 70000 }, H_SECOND[] = { 4097, 9000, 20000 };
+static void sh_desc(uint64_t idx, void *ctx, char *b, size_t n)
+{
+    (void) ctx; int kind = (int) (idx % 2), f = H_FIRST[(idx / 2) % 2], sc = H_SECOND[(idx / 4) % 3], viafp = (int) (idx / 12);
+    snprintf(b, n, CLS " %s(%s) on %d bytes, delete, then %s on %d bytes already queued", viafp ? "new_from_fp" : "new_from_fd", kind ? "unix socket" : "pipe", f, viafp ? "new_from_fp" : "new_from_fd", sc);
+}
+static void sh_case(uint64_t idx, void *ctx)
+{
+    (void) ctx; int kind = (int) (idx % 2), lens[2] = { H_FIRST[(idx / 2) % 2], H_SECOND[(idx / 4) % 3] }, viafp = (int) (idx / 12);
+    const char *site = viafp ? CLS "_new_from_fp" : CLS "_new_from_fd";
+    mc_set_shape("after a large stream");
+    for (int step = 0; step < 2; step++) {
+        char *pay = malloc((size_t) lens[step] + 1); fill_payload(pay, lens[step], -1);
+        int fds[2] = { -1, -1 }; FILE *fp = NULL; T o;
+        if (!queue_stream(kind, pay, lens[step], fds)) { free(pay); return; }
+        if (viafp) { fp = fdopen(fds[0], "r"); o = F(new_from_fp)(fp); } else o = F(new_from_fd)(fds[0]);
+        check_text(o, pay, lens[step], site, "after a large stream", step ? "second stream" : "first stream");
+        if (o) { F(append_char)(o, 'q'); if (o->s && (o->len < 1 || o->s[o->len - 1] != 'q' || o->s[o->len] || o->size <= o->len)) FAIL(site, "model:followup-append", "after a large stream", "append_char after construction broke the value"); F(del)(o); }
+        if (fp) fclose(fp); else close(fds[0]);
+        free(pay);
+    }
+    mc_nontrivial();
+    mc_outcome(idx);
+}
+/* (b) hard errors */
+enum { HE_EIO0, HE_EIO1, HE_EIO2, HE_EIO3, HE_DIR, HE_WRONLY, NHE };
+static void he_desc(uint64_t idx, void *ctx, char *b, size_t n)
+{
+    static const char *w[NHE] = { "read() fails with EIO at once", "EIO on the 2nd read()", "EIO on the 3rd read()", "EIO on the 4th read()", "the descriptor is a directory (EISDIR)", "the descriptor is write-only (EBADF)" };
+    (void) ctx; snprintf(b, n, CLS " new_from_ptr(\"seed\"), done(), init_from_fd() on a 9000-byte pipe where %s; then append_char, then del", w[idx % NHE]);
+}
+static void he_case(uint64_t idx, void *ctx)
+{
+    (void) ctx; int he = (int) (idx % NHE); const char *site = CLS "_init_from_fd", *shape = "hard read error";
+    mc_set_shape(shape);
+    char *pay = malloc(9001); fill_payload(pay, 9000, -1);
+    int fds[2] = { -1, -1 }, fd = -1;
+    if (he <= HE_EIO3) { if (!queue_stream(0, pay, 9000, fds)) { free(pay); return; } fd = fds[0]; }
+    else if (he == HE_DIR) fd = open("/", O_RDONLY);
+    else { const char *td = getenv("VERIF_SCRATCH"); char path[256]; snprintf(path, sizeof path, "%s/wo-%d", td ? td : "/tmp", (int) getpid()); fd = open(path, O_WRONLY | O_CREAT, 0600); unlink(path); }
+    T o = F(new_from_ptr)((void *) "seed");
+    F(done)(o);
+    g_hook_fd = fd; g_eio_at = he <= HE_EIO3 ? he : -1; g_eio_seen = 0;
+    spif_bool_t r = F(init_from_fd)(o, fd);
+    g_hook_fd = -1; g_eio_at = -1;
+    (void) r;
+    /* whatever was reported: (NULL,0,0) or a terminated text that is a prefix of what the descriptor delivered */
+    if (!o->s) { if (o->len || o->size) FAIL(site, "invariant:empty-state", shape, "text pointer NULL with len=%ld size=%ld", (long) o->len, (long) o->size); }
+    else if (o->len < 0 || o->size <= o->len || (mc_block_size(o->s) && (IDX) mc_block_size(o->s) < o->size) || o->s[o->len]) FAIL(site, "invariant:I2", shape, "len=%ld size=%ld block=%zu", (long) o->len, (long) o->size, mc_block_size(o->s));
+    else if (he <= HE_EIO3 && (o->len > 9000 || memcmp(o->s, pay, (size_t) o->len))) FAIL(site, "model:text", shape, "the text is not a prefix of what was delivered");
+    IDX before = o->len;
+    F(append_char)(o, 'q');
+    if (!o->s || o->len != before + 1 || o->s[before] != 'q' || o->s[o->len] || o->size <= o->len) FAIL(site, "model:followup-append", shape, "append_char after the failed read: len %ld -> %ld", (long) before, (long) o->len);
+    F(del)(o);
+    if (fd >= 0) close(fd);
+    free(pay);
+    mc_nontrivial();
+    mc_outcome(idx);
+}
+
 /* ------------------------------------------------------------------ sprintf: every formatted length up to a bound (internal probe/retry buffers have sizes of their own) */
 static void sp_desc(uint64_t idx, void *ctx, char *b, size_t n) { (void) ctx; static const char *f[3] = { "\"%s\" with a string of n characters", "\"%*d\" with width n", "\"<%s>\" with a string of n characters" }; snprintf(b, n, CLS " sprintf(%s), n=%d, then the same on an object that already holds text", f[idx % 3], (int) (idx / 3)); }
 static void sp_case(uint64_t idx, void *ctx)
@@ -546,6 +630,7 @@ int main(int argc, char **argv)
     g_dev = (int) mc_arg_int("dev", 2);
     if (!mc_arg("only", NULL) || !strcmp(mc_arg("only", ""), "ctor"))
         mc_e2_level(CLS "_stream_ctor", g_k * 10 + g_dev, (uint64_t) NSRC * 6 * NLENS, sc_case, sc_desc, NULL);
+    if (!mc_arg("only", NULL)) { mc_e2_level(CLS "_stream_history", 1, 24, sh_case, sh_desc, NULL); mc_e2_level(CLS "_fd_hard_error", 1, NHE, he_case, he_desc, NULL); }
     if (!mc_arg("only", NULL)) { int maxn = (int) mc_arg_int("spmax", mc_thorough() ? 9000 : 700); mc_e2_level(CLS "_sprintf_len", maxn, (uint64_t) (maxn + 1) * 3, sp_case, sp_desc, NULL); }
     return mc_finish();
 }
